@@ -564,7 +564,30 @@ def resample_index_rule(ctx, rule="ROLE-one-index"):
             ck.fail(f"[{which}] whole-trace tree_map", f"found {short(leaf, ev, 200)}")
             continue
         b = tm[2]
-        if not (b[0] == "idx" and b[1] == ("leaf", tm[1], TRC)):
+        LEAF = ("leaf", tm[1], TRC)
+        # a gather of rows along axis 0 — NumPy-style indexing, or jnp.take(leaf, idx, axis=0)
+        if is_call(b) and b[1][0] == "name" and b[1][1] in ("jax.numpy.take",) and len(b[2]) >= 2 and b[2][0] == LEAF \
+                and (ev.kwget(b[3], "axis") == C(0) or (len(b[2]) >= 3 and b[2][2] == C(0))):
+            mode = ev.kwget(b[3], "mode")
+            # value-range argument: the systematic method's indices come from searchsorted(cumulative weights (N entries), positions), whose
+            # result ranges over [0, N] *inclusive* (N when a position exceeds the last cumulative weight — the float32 cumsum of normalised
+            # weights may end below 1); rows exist for [0, N-1].  leaf[idx] clamps such an index to the last row (the correct ancestor);
+            # jnp.take's default mode='fill' returns NaN / INT_MIN rows for it: a particle that is a copy of no input particle.
+            if which != "systematic":
+                seen[which] = b[2][1]      # categorical indices range over [0, N-1]: every gather mode agrees
+                continue
+            if mode is None or (mode[0] == "const" and mode[1] not in ("clip", "wrap")):
+                ck.fail(f"[{which}] gather is total on the index range of its producer",
+                        f"jnp.take(leaf, indices, axis=0{'' if mode is None else ', mode=' + repr(mode[1])}) fills out-of-range rows with NaN/INT_MIN; "
+                        "searchsorted against the N cumulative weights ranges over [0, N] (N when the float32 cumsum ends below the last position), "
+                        "where NumPy-style leaf[indices] clamps to the last particle")
+                continue
+            if mode[0] == "const" and mode[1] == "wrap":
+                ck.fail(f"[{which}] gather is total on the index range of its producer", "mode='wrap' maps the out-of-range index N to particle 0 (wrong ancestor)")
+                continue
+            seen[which] = b[2][1]
+            continue
+        if not (b[0] == "idx" and b[1] == LEAF):
             ck.fail(f"[{which}] every leaf indexed on its first axis", f"found {short(b, ev, 200)}")
             continue
         seen[which] = b[2]
